@@ -92,6 +92,10 @@ def compare_traces(a, b_, rel=1e-9):
                 if not (math.isfinite(x) and math.isfinite(y)):
                     return None if k > 0 else {'what': 'non-finite', 'element': ea['name'], 'variable': v}
                 if abs(x - y) > rel * max(abs(x), abs(y)) + rel * sc:
+                    if v == 'contact stress' and abs(x * x - y * y) <= rel * sc * sc:
+                        # the Hertz stress is the square root of the force: next to zero force a rounding-sized difference of the
+                        # force (relative to its scale) is magnified to its square root; compared in the squares there
+                        continue
                     return {'what': 'value', 'element': ea['name'], 'variable': v, 'instant': k, 'a': x, 'b': y, 'series_max': sc}
     return None
 
